@@ -66,16 +66,16 @@ Qed.
 Lemma fold_and_sound : forall a b en, eval en (fold_and a b) = eval en (EAnd a b).
 Proof.
   intros a b en. unfold fold_and. cbn [eval].
-  destruct (bconst a) as [[|]|] eqn:Ha; destruct (bconst b) as [[|]|] eqn:Hb;
+  destruct (bconst a) as [[|]|] eqn:Ha; destruct (bconst b) as [[|]|] eqn:Hb; cbn [eval];
     try rewrite (bconst_sound _ _ Ha en); try rewrite (bconst_sound _ _ Hb en);
-    cbn [eval truthy andb]; rewrite ?andb_false_r; reflexivity.
+    cbn [truthy andb]; rewrite ?andb_false_r; reflexivity.
 Qed.
 Lemma fold_or_sound : forall a b en, eval en (fold_or a b) = eval en (EOr a b).
 Proof.
   intros a b en. unfold fold_or. cbn [eval].
-  destruct (bconst a) as [[|]|] eqn:Ha; destruct (bconst b) as [[|]|] eqn:Hb;
+  destruct (bconst a) as [[|]|] eqn:Ha; destruct (bconst b) as [[|]|] eqn:Hb; cbn [eval];
     try rewrite (bconst_sound _ _ Ha en); try rewrite (bconst_sound _ _ Hb en);
-    cbn [eval truthy orb]; rewrite ?orb_true_r; reflexivity.
+    cbn [truthy orb]; rewrite ?orb_true_r; reflexivity.
 Qed.
 Lemma fold_not_sound : forall a en, eval en (fold_not a) = eval en (ENot a).
 Proof.
